@@ -10,7 +10,8 @@ RULE = ("lint-clean acyclic blackbox-free circuits of <= 22 nodes: fan-out-free 
         "diamonds over a common stem), 2-5 outputs combining shared blocks, random DAGs with fan-in <= 2 (limit_fanin is then the "
         "identity), and a class with gates of 3-5 operands (the limited circuit is recorded by calling limit_fanin(c, 2) in the same "
         "process), every multi-operand gate type with 3, 4 and 5 operands, and a name-stress class (inputs a..h, gates m, n, ...; an "
-        "inverter of m = and(a, b) is named a_b, so different node sets can have equal sorted-and-joined names); each circuit also in "
+        "inverter of m = and(a, b) is named a_b, so different node sets can have equal sorted-and-joined names), constants x/0/1 with fan-out "
+        "inside the cones, inputs that are themselves limit_fanin(c0, 3|4) results or carry names g_limit_fanin_<i>; each class also in "
         "the single-output super-circuit form (<= 6 inputs). Non-trivial = at least 2 gates and a "
         "result of at least 2 supergates or a reconvergent stem inside one; distinct = canonical input hash")
 EXPLANATION = ("verified checkers (shape, cover, order, independence: soundness proved for all inputs) decide the property on the list the "
